@@ -5,13 +5,13 @@ CONSTANTS
   Deputy = "dep"
   PlainDenoms = {"aaa", "bbb"}
   Assets = {}
-  Templates <- TemplatesPlain
+  Templates <- TemplatesPlainBig
   Locks = {1, 2}
   Dts = {1}
   Params0 <- NoParams
   ParamAlts = {}
-  MaxH = 5
-  Claimants = {"u2", "dep"}
+  MaxH = 6
+  Claimants = {"u1", "u2", "dep"}
   ClaimSecrets = {"s1", "s2", "junk"}
   InitBal = 3
   MaxUpdates = 0
